@@ -375,6 +375,11 @@ def key_function(run, fnode, keyexpr):
     keyexpr = strip_cast(keyexpr)
     if isinstance(keyexpr, ast.Lambda):
         return keyexpr.args.args[0].arg, keyexpr.body
+    if isinstance(keyexpr, ast.Call) and len(keyexpr.args) == 1 and isinstance(keyexpr.args[0], ast.Constant) and isinstance(keyexpr.args[0].value, int):
+        fi = run.prog.func_of(keyexpr)
+        tg, ext, ok = run.prog.resolve_call(keyexpr, fi)
+        if ext == 'operator.itemgetter':
+            return '_item', ast.parse('_item[%d]' % keyexpr.args[0].value, mode='eval').body
     if isinstance(keyexpr, ast.Name):
         for n in walk(fnode, nested=True):
             if isinstance(n, ast.FunctionDef) and n.name == keyexpr.id:
